@@ -261,6 +261,66 @@ CLAIMS.update({
     },
 })
 
+CLAIMS.update({
+    'C08': {
+        'text': 'Decides the wiring that makes regeneration see every input: '
+                '(REGEN-INPUTS) the script exec is lexically inside '
+                'context.push_path (which records seen_paths before '
+                'yielding), every executed script becomes a bootstrap path, '
+                'the regenerate rule of both backends uses _inputs '
+                '(bootstrap + toolchain + mopack metadata) and _outputs '
+                '(build file + every immediate file); (FIND-DIRS) every '
+                'directory walked by a cached find_files reaches find_dirs '
+                'and the depfile that Make includes / Ninja names; '
+                '(CACHE-REPLAY) the cache-hit path of find_from_filter reads '
+                'every field of a FindCacheEntry and performs the same '
+                'classes of registrations as the miss path; '
+                '(NULLABLE-ROUNDTRIP) no saved field changes value across '
+                'save/load. Equality with a fresh configure over histories '
+                'and convergence are not decided.',
+        'note': _TB + 'Not decided: equality of regenerated files with a '
+                'fresh configure over edit histories; mtime orderings; '
+                'convergence. F4 and F12 repaired by fix: commits.',
+        'technique': 'lexical-containment and dominance checks, writer/'
+                     'reader field agreement between the two paths of one '
+                     'function, registry-based sibling checks',
+    },
+    'C11': {
+        'text': 'Thin claim. Decides (CACHE-REPLAY) that result caching '
+                'registers found and extra/not_now entries on the cached '
+                'path exactly as on the miss path (the clause "every file '
+                'found plus extra ones is part of the distribution" and '
+                '"caching never changes the result" for the registration '
+                'effects), and (RESULT-LATTICE) the order of FindResult / '
+                'PathGlob.Result values with &=max, |=min, pruning only on '
+                'exclude_recursive, precedence exclude > include > extra, '
+                'and the include/not_now split of find_from_filter. The '
+                'glob matching semantics -- most of the property -- are not '
+                'decided by static analysis.',
+        'note': _TB + 'Not decided: matching semantics of *, ?, [..], **, '
+                'type selection, soundness of `never` pruning over all trees '
+                'and patterns; existence of returned entries.',
+        'technique': 'constant evaluation of enum lattices + structural '
+                     'agreement of cache-hit and cache-miss paths',
+    },
+    'C18': {
+        'text': 'Decides: (SOURCE-REGISTRATION) every builtin that creates a '
+                'file object from a name forwards the caller\'s dist flag to '
+                'static_file, static_file and Edge.make are the only '
+                'add_source callers and guard on Root.srcdir, sources() = '
+                'bootstrap paths + registered sources, the dist command '
+                'lists all of them relative to srcdir; (REGEN-INPUTS) every '
+                'executed script is a bootstrap path; (CACHE-REPLAY) files '
+                'found through find_files incl. extra ones are registered '
+                'on the cached path too. Archive contents are not decided.',
+        'note': _TB + 'Not decided: what doppel puts into the archive; that '
+                'the unpacked archive configures equivalently.',
+        'technique': 'who-may-call + guard check, decorator-driven '
+                     'enumeration of file-creating builtins, argument '
+                     'forwarding check',
+    },
+})
+
 _PENDING = 'check not built yet in this session (design in DESIGN.md)'
 
 NOT_APPLICABLE = {
